@@ -10,10 +10,22 @@
 (* State: pre = store before the last request, st = store after it with    *)
 (* st.wlog = the request's write list (with contents).  CrashSafe is an    *)
 (* invariant quantifying over all cuts of that list.                       *)
+(*                                                                         *)
+(* clear() is a write request too, but it does not start with block        *)
+(* writes: it re-creates the two files one after the other (events "XT",   *)
+(* "XL" of the write list, in the order ClearOrder), then writes the       *)
+(* header and installs the rules it is given.  The history is not monotone *)
+(* across a clear, so a cut in front of the first event of a clear is      *)
+(* compared with the history completed before it.  The trie holds the      *)
+(* pointers into the link store and the link store holds none a traversal  *)
+(* follows from itself: emptying the trie first leaves unreachable garbage,*)
+(* emptying the link store first leaves dangling pointers (CrashSafe fails *)
+(* with ClearOrder = <<"XL", "XT">>, configuration MC_crash_clearbug).     *)
 (***************************************************************************)
 EXTENDS TraphImpl, TraphAbs, Torn, TLC
 
-CONSTANTS PageLrus, PrefixLrus, PairSeqs, CrawlBatches, AnchorRules, DefRule, InitRules, Ops, MaxLevel
+CONSTANTS PageLrus, PrefixLrus, PairSeqs, CrawlBatches, AnchorRules, DefRule, InitRules, Ops, MaxLevel,
+          ClearOrder       \* <<"XT", "XL">> in the code: the trie file is re-created first
 
 VARIABLES pre, st, ram, nreq
 vars == <<pre, st, ram, nreq>>
@@ -24,6 +36,8 @@ ApplyWrite(s, w) ==
   CASE w.f = "T" -> [s EXCEPT !.trie = IF w.i = Len(@) + 1 THEN Append(@, w.b) ELSE [@ EXCEPT ![w.i] = w.b]]
     [] w.f = "L" -> [s EXCEPT !.ls = IF w.i = Len(@) + 1 THEN Append(@, w.b) ELSE [@ EXCEPT ![w.i] = w.b]]
     [] w.f = "H" -> [s EXCEPT !.lastId = w.b]
+    [] w.f = "XT" -> [s EXCEPT !.trie = <<>>, !.lastId = 0]     \* the header lives in the trie file
+    [] w.f = "XL" -> [s EXCEPT !.ls = <<>>]
     [] OTHER -> s
 RECURSIVE ApplyPrefix(_, _, _, _)
 ApplyPrefix(s, wl, j, k) == IF j > k THEN s ELSE ApplyPrefix(ApplyWrite(s, wl[j]), wl, j + 1, k)
@@ -36,7 +50,8 @@ TornOK(t, full) ==
   /\ LinkLeq(TornIn(t.trie, t.ls), InLinksOf(full.trie, full.ls))
   /\ t.lastId <= full.lastId
 
-CrashSafe == \A k \in 0..Len(st.wlog) : TornOK(Torn(k), st)
+IsClear == Len(st.wlog) > 0 /\ st.wlog[1].f \in {"XT", "XL"}
+CrashSafe == \A k \in 0..Len(st.wlog) : TornOK(Torn(k), IF k = 0 /\ IsClear THEN pre ELSE st)
 CutIsFull == Torn(Len(st.wlog)).trie = st.trie /\ Torn(Len(st.wlog)).ls = st.ls   \* sanity: all writes = the request
 
 (***************************************************************************)
@@ -62,6 +77,14 @@ Request ==
   \/ /\ "AddRule" \in Ops
      /\ \E ar \in AnchorRules :
           LET r == AddRuleReq(Clean(st), ram, DefRule, ar.anchor, ar.rule, TRUE) IN Do(r.res) /\ ram' = r.ram
+  \/ /\ "Clear" \in Ops
+     /\ \E rules \in {<<>>} \cup { <<ar>> : ar \in AnchorRules } :
+          LET f  == FreshIndex(DefRule, rules)
+              ev == [j \in 1..2 |-> [f |-> ClearOrder[j], i |-> 0, app |-> FALSE, b |-> 0]]
+              h  == <<[f |-> "H", i |-> 0, app |-> FALSE, b |-> 0]>>
+          IN /\ pre' = Clean(st)
+             /\ st' = [f.st EXCEPT !.wlog = ev \o h \o @]
+             /\ ram' = f.ram
 
 Next == nreq < MaxLevel - 1 /\ nreq' = nreq + 1 /\ Request
 Spec == Init /\ [][Next]_vars
